@@ -498,7 +498,8 @@ func genAtom(t *rapid.T) string {
 	case 12:
 		return "// " + rapid.StringMatching(`[a-z ("\[]{0,8}`).Draw(t, "lc") + "\n"
 	case 13:
-		return "/* " + rapid.StringMatching("[a-z (\"\\n\\[]{0,8}").Draw(t, "bc") + " */"
+		// bodies with stars and slashes, closers with a run of stars: "**/" must close the comment
+		return "/*" + rapid.StringMatching("[a-z (\"\\n\\[*/]{0,8}").Draw(t, "bc") + rapid.SampledFrom([]string{" */", "*/", "**/", "***/", " * */"}).Draw(t, "bcend")
 	case 14:
 		return "^(a ~b ~@c)"
 	case 15:
